@@ -128,6 +128,7 @@ impl Prop for C05 {
             buffered: false,
             gate_calls: vec![],
             trace: false,
+            via_builder: None,
             inbound: stream,
             reads,
             writes: vec![],
@@ -242,6 +243,7 @@ impl Prop for C05 {
             buffered: false,
             gate_calls: vec![],
             trace: rng.chance(1, 8),
+            via_builder: None,
             inbound,
             reads,
             writes,
